@@ -71,7 +71,7 @@ func JoinRun(m *MultiBucket, writers, opsEach, keys int, r *rng.R) (JoinResult, 
 				default:
 				}
 				key := fmt.Sprintf("k%d", wr.Intn(keys))
-				_, cas, ok, _ := writerOp(c, wr, key, fmt.Sprintf("w%d.%d", wi, i), last, false)
+				_, cas, ok, _ := writerOp(c, wr, key, fmt.Sprintf("w%d.%d", wi, i), last, true)
 				if ok {
 					acked.Add(1)
 					if cas != 0 {
